@@ -292,9 +292,10 @@ fn gen_cfg(p: &Profile, rng: &mut Rng) -> Cfg {
         Transport::Unreliable {
             rto_ns: rto.max(1000),
             gran_ns: *rng.pick(&[1000, MS, MS, 10 * MS, 50 * MS, rto.max(1000), 2 * rto.max(1000)]),
-            rm: rng.range(p.rm.0, p.rm.1) as u32,
-            // now and then more transmissions than the default of seven (the intervals keep doubling)
-            rc: if p.rc.1 >= 7 && rng.chance(1, 25) { rng.range(9, 12) as u32 } else { rng.range(p.rc.0, p.rc.1) as u32 },
+            rm: if p.rm.1 >= 16 && rng.chance(1, 25) { rng.range(21, 32) as u32 } else { rng.range(p.rm.0, p.rm.1) as u32 },
+            // now and then more transmissions than the default of seven (the intervals keep doubling); C06 is
+            // quantified over Rc 1-10 and Rm 1-32
+            rc: if p.rc.1 >= 7 && rng.chance(1, 25) { rng.range(9, 10) as u32 } else { rng.range(p.rc.0, p.rc.1) as u32 },
         }
     };
     let tot: u64 = p.mech_w.iter().sum();
@@ -1400,7 +1401,7 @@ impl<'a> World<'a> {
                             }
                         }
                         6 => parts.push(format!("lt=401 {}", *rng.pick(&["norealm", "nononce", "noerr", "noalgs"]))),
-                        _ => parts.push(format!("lt=438 {}", *rng.pick(&["nononce", "norealm", "noerr", "noalgs", "integ=auto"]))),
+                        _ => parts.push(format!("lt=438 {}", *rng.pick(&["nononce", "norealm", "noerr", "noalgs", "integ=auto", "anon=0", "anon=1", "anon=0", "anon=1"]))),
                     }
                 }
                 if rng.chance(p.p_srv_hostile, 2000) {
@@ -2021,7 +2022,7 @@ impl<'a> World<'a> {
             if self.opts.probe_fresh_request {
                 // the server starts a fresh session: whatever was negotiated under faults is forgotten
                 self.server.reset_session();
-                let a = AppAction { t: self.now, ind: false, method: 1, attrs: "-".into(), buf: 1024, fill: 0 };
+                let a = AppAction { t: self.now, ind: false, method: 1, attrs: "-".into(), buf: 4096, fill: 0 };
                 let app = self.apps.len();
                 self.apps.push(Some(a.clone()));
                 self.ledger.fresh_probe_app = Some(app);
